@@ -57,92 +57,49 @@ theorem leftFrom_le (d : Bytes) (i : Int) : leftFrom d i ≤ 2 * d.length := by
 
 /-! ### container loops -/
 
-/-- the tail of a constant-record round after the type and the offset have been read: the index it returns -/
-theorem crbTail_idx {codec : Codec} {d : Bytes} {conOff : Int} {st st' : CrbState} {ctype coff idx2 : Int} {bpc1 : Nat}
-    (h : (if ctype = 1 then do
-            let idxc := conOff + coff
-            let len ← getSI 4 d idxc
-            let strlength := len - 1
-            let idxc := idxc + 4
-            let s ← decodeText codec (pySlice d idxc (idxc + strlength))
-            pure ({ idx := idx2, bpc := bpc1, acc := st.acc ++ [Name.s (escapeString s)] } : CrbState)
-          else if ctype = 4 then
-            pure { idx := idx2, bpc := bpc1, acc := st.acc ++ [Name.s (intStr coff)] }
-          else if ctype = 9 then do
-            let idxc := conOff + coff
-            let flen ← getSI 4 d idxc
-            let idxc := idxc + 4
-            let f ← unpackFloat80 (pySlice d idxc (idxc + flen))
-            pure { idx := idx2, bpc := bpc1, acc := st.acc ++ [Name.s f] }
-          else (.error .value : R CrbState)) = .ok st') : st'.idx = idx2 := by
-  simp only [bind, Except.bind, pure, Except.pure] at h
-  split at h
-  · split at h
-    · cases h
-    · split at h
-      · cases h
-      · simp only [Except.ok.injEq] at h; rw [← h]
-  · split at h
-    · simp only [Except.ok.injEq] at h; rw [← h]
-    · split at h
-      · split at h
-        · cases h
-        · split at h
-          · cases h
-          · simp only [Except.ok.injEq] at h; rw [← h]
-      · cases h
+theorem bind_ok {α β : Type} {x : R α} {f : α → R β} {b : β} (h : (x >>= f) = .ok b) : ∃ a, x = .ok a ∧ f a = .ok b := by
+  cases x with
+  | error e => cases h
+  | ok a => exact ⟨a, rfl, h⟩
+
+/-- after the type and the offset of a constant record have been read, every successful branch returns the index `idx2` -/
+macro "crb_tail" h:ident : tactic => `(tactic| (
+  simp only [bind, Except.bind, pure, Except.pure, throw, throwThe, MonadExceptOf.throw] at $h:ident
+  repeat (any_goals (split at $h:ident))
+  all_goals first
+    | (cases $h:ident; done)
+    | (simp only [Except.ok.injEq] at $h:ident; rw [← $h:ident])))
 
 /-- a completed round of the constant-record loop has read at `st.idx` and moved on by 6 or 8 bytes, inside the data -/
 theorem crbStep_advance {codec : Codec} {d : Bytes} {conOff : Int} {st st' : CrbState} (h : crbStep codec d conOff st = .ok st') :
     -(d.length : Int) ≤ st.idx ∧ st.idx + 6 ≤ st'.idx ∧ st'.idx ≤ d.length := by
   unfold crbStep at h
+  simp only at h
   by_cases hb : st.bpc = 8
   · simp only [hb, if_true] at h
-    cases h1 : getSI 4 d st.idx with
-    | error e => rw [h1] at h; simp [bind, Except.bind] at h
-    | ok t =>
-      rw [h1] at h
-      simp only [bind, Except.bind, pure, Except.pure] at h
-      cases h2 : getSI 4 d (st.idx + 4) with
-      | error e => rw [h2] at h; simp at h
-      | ok coff =>
-        rw [h2] at h
-        simp only at h
-        have a := getSI_ok_range (by decide) h1
-        have b := getSI_ok_range (by decide) h2
-        have := crbTail_idx (st := st) (by simpa [bind, Except.bind, pure, Except.pure] using h)
-        omega
+    obtain ⟨t, h1, h⟩ := bind_ok h
+    simp only [pure_bind] at h
+    obtain ⟨coff, h2, h⟩ := bind_ok h
+    have a := getSI_ok_range (by decide) h1
+    have b := getSI_ok_range (by decide) h2
+    have hidx : st'.idx = st.idx + 4 + 4 := by crb_tail h
+    omega
   · simp only [hb, if_false] at h
-    cases h1 : getSI 2 d st.idx with
-    | error e => rw [h1] at h; simp [bind, Except.bind] at h
-    | ok t =>
-      rw [h1] at h
-      simp only [bind, Except.bind, pure, Except.pure] at h
-      have a := getSI_ok_range (by decide) h1
-      by_cases ht : t = 0
-      · simp only [ht, if_true] at h
-        cases h1b : getSI 2 d (st.idx + 2) with
-        | error e => rw [h1b] at h; simp at h
-        | ok t2 =>
-          rw [h1b] at h
-          simp only at h
-          cases h2 : getSI 4 d (st.idx + 4) with
-          | error e => rw [h2] at h; simp at h
-          | ok coff =>
-            rw [h2] at h
-            simp only at h
-            have b := getSI_ok_range (by decide) h2
-            have := crbTail_idx (st := st) (by simpa [bind, Except.bind, pure, Except.pure] using h)
-            omega
-      · simp only [ht, if_false] at h
-        cases h2 : getSI 4 d (st.idx + 2) with
-        | error e => rw [h2] at h; simp at h
-        | ok coff =>
-          rw [h2] at h
-          simp only at h
-          have b := getSI_ok_range (by decide) h2
-          have := crbTail_idx (st := st) (by simpa [bind, Except.bind, pure, Except.pure] using h)
-          omega
+    obtain ⟨t, h1, h⟩ := bind_ok h
+    have a := getSI_ok_range (by decide) h1
+    by_cases ht : t = 0
+    · simp only [ht, if_true] at h
+      obtain ⟨t2, _, h⟩ := bind_ok h
+      simp only [pure_bind] at h
+      obtain ⟨coff, h2, h⟩ := bind_ok h
+      have b := getSI_ok_range (by decide) h2
+      have hidx : st'.idx = st.idx + 4 + 4 := by crb_tail h
+      omega
+    · simp only [ht, if_false, pure_bind] at h
+      obtain ⟨coff, h2, h⟩ := bind_ok h
+      have b := getSI_ok_range (by decide) h2
+      have hidx : st'.idx = st.idx + 2 + 4 := by crb_tail h
+      omega
 
 theorem crbSteps_bound (codec : Codec) (d : Bytes) (conOff : Int) (n : Nat) (st : CrbState) :
     6 * crbSteps codec d conOff n st ≤ leftFrom d st.idx + 6 := by
@@ -286,10 +243,10 @@ theorem handlerGlobalsSteps_bound (d : Bytes) (off : Int) (k nl : Nat) :
       omega
 
 /-- the three name tables of ONE function record: at most `len + 1` rounds each, whatever counts and offsets it declares -/
-theorem tablesSteps_linear (ctx : Ctx) (d : Bytes) (idx : Int) : tablesSteps ctx d idx ≤ 3 * d.length + 3 := by
+theorem tablesSteps_linear (ctx : Ctx) (d : Bytes) (idx : Int) (declared0 : Nat) : tablesSteps ctx d idx declared0 ≤ 3 * d.length + 3 := by
   unfold tablesSteps
   split
-  · rename_i nArg argOff nLocal localOff countC globOff _ _ _ _ _ _
+  · rename_i nArg argOff nLocal localOff countC globOff bcLen _ _ _ _ _ _ _
     have a := localNamesSteps_bound ctx d localOff nLocal.toNat 0
     have b := paramNamesSteps_bound ctx d argOff nArg.toNat 0
     have c := handlerGlobalsSteps_bound d globOff countC.toNat 0
@@ -301,7 +258,9 @@ theorem tablesSteps_linear (ctx : Ctx) (d : Bytes) (idx : Int) : tablesSteps ctx
     · omega
     · split
       · omega
-      · omega
+      · split
+        · omega
+        · omega
   · omega
 
 
